@@ -65,7 +65,10 @@ def delete_discipline(ctx, rule):
         V = FuncView(ctx, f)
         dels = [n for n in V.cfg.nodes if isinstance(n.ast, ast.Delete) and src(n.ast.targets[0]).startswith("raw[")]
         V.need(dels, "del raw[:index] in %s" % fname)
-        nf = V.tests(lambda t: src(t) == "index < 0")
+        # the position variable is whatever the deletion is written with (`index`, `end`, ..)
+        up0 = dels[0].ast.targets[0].slice.upper if isinstance(dels[0].ast.targets[0].slice, ast.Slice) else None
+        pos = next((x.id for x in ast.walk(up0) if isinstance(x, ast.Name) and x.id not in ("len", "eol")), "index") if up0 is not None else "index"
+        nf = V.tests(lambda t, pos=pos: src(t) == pos + " < 0")
         yn = [n for n in V.cfg.nodes if any(isinstance(x, ast.Yield) and (x.value is None or (isinstance(x.value, ast.Constant) and x.value.value is None))
                                             for x in V.cfg.walk_node(n))]
         ok = bool(nf) and all(V.dominated_by_edge([d], nf[0], "F") for d in dels) and bool(yn)
@@ -77,8 +80,8 @@ def delete_discipline(ctx, rule):
         for d in dels:
             # what is deleted is the line and its terminator: raw[:index] after `index += len(eol)`, or raw[:index + len(eol)]
             tgt = src(d.ast.targets[0]).replace(" ", "")
-            bumped = [n for n in V.cfg.nodes if isinstance(n.ast, ast.AugAssign) and dotted(n.ast.target) == "index" and V.dominated([d], [n])]
-            ok = ok and ((tgt == "raw[:index]" and bool(bumped)) or tgt in ("raw[:index+len(eol)]", "raw[:len(eol)+index]"))
+            bumped = [n for n in V.cfg.nodes if isinstance(n.ast, ast.AugAssign) and dotted(n.ast.target) == pos and V.dominated([d], [n])]
+            ok = ok and ((tgt == "raw[:%s]" % pos and bool(bumped)) or tgt in ("raw[:%s+len(eol)]" % pos, "raw[:len(eol)+%s]" % pos))
         ctx.check(ok, rule, f, "%s: del raw[:index] only after an end of line was found; `yield None` leaves the buffer untouched" % fname,
                   "an incomplete line must stay in the buffer until the rest arrives, otherwise a message split at that point parses "
                   "differently from the whole message")
@@ -214,7 +217,8 @@ def wait_before_read(ctx, rule):
                 ok = ("len(%s) >= %s" % (buf, k)) in fs
                 if not ok and ("%s >= 0" % k) in fs:
                     # K is a delimiter position found in the buffer
-                    ok = any(isinstance(a.ast, ast.Assign) and dotted(a.ast.targets[0]) == k for a in V.cfg.nodes)
+                    ok = any(isinstance(a.ast, ast.Assign) and any(isinstance(t_, ast.Name) and t_.id == k
+                                                                   for tg in a.ast.targets for t_ in ast.walk(tg)) for a in V.cfg.nodes)
                 if not ok:
                     up = sl.upper if isinstance(sl, ast.Slice) else sl
                     if isinstance(up, ast.BinOp) and isinstance(up.op, ast.Add) and isinstance(up.left, ast.Name) and \
